@@ -168,6 +168,12 @@ def judge(case):
                 if ii % 2:
                     evs[e][0].recompile(texts[evs[e][1]])
                 observe(evs[e][1], ii, evs[e][0], "instance #%d after a refused recompile%s" % (e, " and the roll-back to the live text" if ii % 2 else ""))
+            elif k == "burst":
+                # a long run of one and the same call (a traffic burst from one segment), only the last one observed
+                env = M.dec_inputs(case["inputs"][evs[e][1]][ii % len(case["inputs"][evs[e][1]])])
+                for _ in range(si):
+                    sut.call(evs[e][0], env)
+                observe(evs[e][1], ii, evs[e][0], "instance #%d after a burst of %d identical calls" % (e, si))
             elif k == "recompile_same":
                 evs[e][0].recompile(texts[evs[e][1]])
                 observe(evs[e][1], ii, evs[e][0], "instance #%d after same-text recompile" % e)
@@ -242,8 +248,10 @@ def batches(draw, nprog, nconf):
         sk = draw(_source())
         iv = gen.interesting_values(sk["prog"], sk["classes"])
         text = M.render(sk["prog"])
-        for _ in range(draw(st.integers(6, 12))):
+        for j in range(draw(st.integers(6, 12))):
             items.append({"text": text, "inputs": M.enc_inputs(draw(_inputs(sk["prog"], sk["classes"], iv))), "multi": _multi(sk["prog"])})
+            if j % 3 == 0:
+                items.append(dict(items[-1], positional=True))
     for text in SHORT_TEXTS:
         for u in range(4):
             items.append({"text": text, "inputs": M.enc_inputs({"uid": "u%d" % u, "plan": "pro"}), "multi": True})
@@ -303,14 +311,14 @@ def judge_batch(case):
     for it in items:
         if it["text"] not in evs:
             evs[it["text"]] = sut.compile_text(it["text"])
-        prepared.append((evs[it["text"]], M.dec_inputs(it["inputs"])))
-    raw = [sut.call(r[1], env) if r[0] == "ok" else None for r, env in prepared]  # back to back, nothing of the harness in between
-    parent = [["compile-error", r[1]] if r[0] != "ok" else _canon(o) for (r, env), o in zip(prepared, raw)]
+        prepared.append((evs[it["text"]], M.dec_inputs(it["inputs"]), sut.call_positional if it.get("positional") else sut.call))
+    raw = [fn(r[1], env) if r[0] == "ok" else None for r, env, fn in prepared]  # back to back, nothing of the harness in between
+    parent = [["compile-error", r[1]] if r[0] != "ok" else _canon(o) for (r, env, fn), o in zip(prepared, raw)]
     tmp = tempfile.mkdtemp(prefix="pyab_c01_")
     try:
         path = os.path.join(tmp, "batch.json")
         with open(path, "w", encoding="ascii") as f:
-            json.dump([{"text": it["text"], "inputs": it["inputs"]} for it in items], f, ensure_ascii=True)
+            json.dump([{"text": it["text"], "inputs": it["inputs"], "positional": bool(it.get("positional"))} for it in items], f, ensure_ascii=True)
         procs = []
         for ci in case["configs"]:
             cfg = CONFIGS[ci]
@@ -396,6 +404,25 @@ def fixed_histories():
         yield {"sources": [prog, prog], "inputs": [inputs, inputs], "ops": ops, "plain": True}
 
 
+def burst_histories():
+    """long runs of one kind of outcome (unroutable, missing field, ill-typed value, one group) between observations: how often
+    something happened before is no input of a later call"""
+    text = ('def exp { salt: "b" splitters: uid if country in ("US", "CA") { return "A" weighted 1, "B" weighted 1, "C" weighted 1 } '
+            'else if age > 17 { return "D" weighted 1, "E" weighted 1 } }')
+    good = [{"uid": "u%d" % i, "country": ["US", "CA", "FR"][i % 3], "age": 30} for i in range(9)]
+    odd = [{"uid": "u1", "country": "FR", "age": 3}, {"uid": "u1", "country": "FR"}, {"uid": "u1", "country": "FR", "age": "x"},
+           {"uid": "u1", "country": None, "age": None}, {"uid": "u2", "country": "US", "age": 1}]
+    inputs = [M.enc_inputs(e) for e in good + odd]
+    for n in (700, 3000):
+        ops = [["call", 0, 0, i] for i in range(len(inputs))]
+        for j in range(len(odd)):
+            ops += [["burst", 0, n, len(good) + j]] + [["call", 0, 0, i] for i in range(len(good))]
+            ops += [["recompile_same", 0, 0, j]] + [["call", 0, 0, i] for i in range(len(inputs))]
+        ops += [["new", 0, 0, 0]] + [["call", 1, 0, i] for i in range(len(inputs))]
+        yield {"texts": [text], "sources": [M.program("exp", M.ret([(M.lit_str("A"), "1"), (M.lit_str("B"), "1")]), splitters=["uid"])],
+               "inputs": [inputs], "ops": ops, "plain": True}
+
+
 def attribute_named_histories():
     """experiments NAMED like attributes / methods of the evaluator object (recompile, run_experiment, __call__ ...): the name of
     an experiment is only a name - recompiling such an evaluator to another source must still switch it"""
@@ -454,6 +481,9 @@ def run(ctx, rec):
         runner.direct_run(ctx, rec, "fixed-histories", fixed_histories(), judge)
         if rec.violations:
             return
+        runner.direct_run(ctx, rec, "bursts", burst_histories(), judge)
+        if rec.violations:
+            return
         runner.direct_run(ctx, rec, "experiments-named-like-evaluator-attributes", attribute_named_histories(), judge)
         if rec.violations:
             return
@@ -475,6 +505,16 @@ def run(ctx, rec):
                                    'def exp { splitters: Zeta, alpha, Beta, uid return "A" weighted 1, "B" weighted 1, "C" weighted 1, "D" weighted 1 }']:
             for u in ["u1", "josé", "日本語", "\U0001f600", "", 0, None, 1.5, True, "İ", "ß"]:
                 fixed_items.append({"text": text, "inputs": M.enc_inputs({"uid": u, "plan": "prö", "Zeta": "z", "alpha": u, "Beta": "β"}), "multi": True})
+        # the compiled function called with POSITIONAL values (exactly the declared fields, in alphabetical order of their names)
+        for text, names in (('def exp { splitters: Zeta, alpha, Beta, uid return "A" weighted 1, "B" weighted 1, "C" weighted 1, "D" weighted 1 }', ["Zeta", "alpha", "Beta", "uid"]),
+                            ('def exp { salt: "p" splitters: uid, region if plan == "pro" and tier != "x" { return "A" weighted 1, "B" weighted 1, "C" weighted 1 } else { return "D" weighted 1, "E" weighted 1 } }',
+                             ["uid", "region", "plan", "tier"]),
+                            ('def exp { splitters: b, a if z > 1 or c > 1 { return "A" weighted 1, "B" weighted 1 } else { return "C" weighted 1, "D" weighted 1 } }', ["b", "a", "z", "c"])):
+            for u in range(8):
+                env = {n: (u * 7 + j * 3) % 5 if text.startswith("def exp { splitters: b") else "%s%d" % (n[0], (u * 7 + j * 3) % 5) for j, n in enumerate(names)}
+                if "plan" in env:
+                    env["plan"] = ["pro", "free"][u % 2]
+                fixed_items.append({"text": text, "inputs": M.enc_inputs(env), "multi": True, "positional": True})
         v = judge_batch({"batch": fixed_items, "configs": list(range(len(CONFIGS)))})
         rec.evaluations += 1
         rec.count("fixed-cross-process")
